@@ -637,6 +637,49 @@ theorem ev_timeout (s : S) (st : Nat) (hc : Core s) : Core (timeout s st) := by
   · exact (ih_all _).enterNewRound _ hc
   · exact hc
 
+theorem ctrl_markValidated (s : S) (ib : Blk) : ctrl (s.markValidated ib) = ctrl s := by
+  unfold S.markValidated
+  split
+  · split <;> rfl
+  · rfl
+
+theorem ev_asyncPropose (s : S) (h r : Nat) (hc : Core s) : Core (asyncPropose s h r) := by
+  unfold asyncPropose
+  split
+  · exact hc
+  · exact (ih_all _).enterPrevote _ (core_sendProposal _ _ _ hc)
+
+theorem ev_asyncCommit (s : S) (h r : Nat) (hc : Core s) : Core (asyncCommit s h r) := by
+  unfold asyncCommit
+  split
+  · exact hc
+  split
+  · exact (ih_all _).enterNewHeight _ (core_finalize _ _ (core_of_ctrl_eq (s := s) rfl hc))
+  · exact core_stuck _ hc
+
+/-- the import callback may send the round's prevote: nothing was sent for it yet -/
+theorem ev_asyncImport (s : S) (h r : Nat) (ib : Blk) (hc : Core s)
+    (hf : s.height = h → s.round = r → s.step ≤ stPrevoteWait → Fresh s (mstepOf .prevote)) :
+    Core (asyncImport s h r ib) := by
+  unfold asyncImport
+  split
+  · exact hc
+  rename_i hcond
+  simp only [Bool.or_eq_true, bne_iff_ne, ne_eq, decide_eq_true_eq, not_or, Decidable.not_not] at hcond
+  have hk := ctrl_markValidated s ib
+  have hc1 : Core (s.markValidated ib) := core_of_ctrl_eq hk hc
+  have hstep : (s.markValidated ib).step = s.step := congrArg Ctrl.step hk
+  simp only []
+  split
+  · rename_i h5
+    rw [hstep] at h5
+    have f1 : Fresh (s.markValidated ib) (mstepOf .prevote) :=
+      fresh_of_ctrl hk _ (hf hcond.1.1 hcond.1.2 (by simpa using h5))
+    split
+    · exact (ih_all _).sendVote _ _ _ hc1 f1
+    · exact core_stuck _ hc1
+  · exact hc1
+
 theorem ev_async (s : S) (hc : Core s) : Core (async s) := by
   unfold async
   split
@@ -644,52 +687,22 @@ theorem ev_async (s : S) (hc : Core s) : Core (async s) := by
   have hn : Core { s with pend := .none } := core_set_pend s .none (by intro h r b; simp) hc
   split
   · exact hc
-  · -- propose callback
-    simp only []
-    split
-    · exact hn
-    · apply (ih_all _).enterPrevote
-      exact core_sendProposal _ _ _ hn
-  · -- import callback
-    rename_i h r ib hp
-    simp only []
-    split
-    · exact hn
-    rename_i hcond
-    simp only [Bool.or_eq_true, bne_iff_ne, ne_eq, decide_eq_true_eq, not_or, Decidable.not_not, Nat.not_le] at hcond
-    obtain ⟨⟨hh, hr⟩, _⟩ := hcond
-    -- the state after the (non-control) validated-block update
-    have key : ∀ s1 : S, ctrl s1 = ctrl { s with pend := .none } → s1.step ≤ stPrevoteWait →
-        Fresh s1 (mstepOf .prevote) := by
-      intro s1 h1 h5
-      have e1 : s1.stuck = s.stuck := congrArg Ctrl.stuck h1
-      have e2 : s1.step = s.step := congrArg Ctrl.step h1
-      have e3 : sentOf s1.eff = sentOf s.eff := congrArg Ctrl.sent h1
-      have e4 : s1.height = s.height := congrArg Ctrl.height h1
-      have e5 : s1.round = s.round := congrArg Ctrl.round h1
-      cases hst : s.stuck
-      · right
-        have hi := hc.imp (by simpa [ctrl] using hst) ⟨ib, by simp only [ctrl]; rw [hp]; simp at hh hr; rw [hh, hr]⟩
-        simp only [ctrl] at hi
-        unfold stPrevoteWait at h5
-        refine ⟨by simp [mstepOf, stPrevote]; omega, ?_, ?_⟩
-        · intro v hv
-          rw [e3] at hv
-          rw [e4, e5]
-          exact hi.2 (by omega) v hv
-        · intro _ ⟨b', hb'⟩
-          rw [h1] at hb'
-          simp [ctrl] at hb'
-      · left; rw [e1]; exact hst
-    split
-    · split
-      · split
-        · exact (ih_all _).sendVote _ _ _ (core_of_ctrl_eq (s := { s with pend := .none }) rfl hn) (key _ rfl (by assumption))
-        · exact core_stuck _ (core_of_ctrl_eq (s := { s with pend := .none }) rfl hn)
-      · split
-        · exact (ih_all _).sendVote _ _ _ hn (key _ rfl (by assumption))
-        · exact core_stuck _ hn
-    · sorry
-  · sorry
+  · exact ev_asyncPropose _ _ _ hn
+  · rename_i h r ib hp
+    apply ev_asyncImport _ _ _ _ hn
+    intro hh hr h5
+    simp only [] at hh hr h5
+    cases hst : s.stuck
+    · right
+      have hi := hc.imp (by simpa [ctrl] using hst) ⟨ib, by simp only [ctrl]; rw [hp, hh, hr]⟩
+      simp only [ctrl] at hi
+      unfold stPrevoteWait at h5
+      refine ⟨by simp [mstepOf, stPrevote]; omega, ?_, ?_⟩
+      · intro v hv
+        exact hi.2 (by omega) v hv
+      · intro _ ⟨b', hb'⟩
+        simp [ctrl] at hb'
+    · left; exact hst
+  · exact ev_asyncCommit _ _ _ hn
 
 end Goloop.C01
